@@ -408,8 +408,8 @@ def part_levels(ctx, impl, rng, quick):
     for c in range(n_cases):
         algo = 'leiden' if c % 3 == 2 else 'louvain'
         kind, nr, nc, t, fam = random_case(rng, nmax)
-        fb = kind != 'bipartite' and rng.random() < 0.15
-        bip = kind == 'bipartite' or fb
+        fb = (nr == nc) and (rng.random() < (0.5 if kind == 'bipartite' else 0.15))
+        bip = nr != nc or fb
         n = nr + nc if bip else nr
         levels, refined = gen_levels(rng, n, algo == 'leiden')
         opts = dict(sort_clusters=rng.random() < 0.6, shuffle_nodes=rng.random() < 0.6, random_state=rng.randint(0, 50),
@@ -714,6 +714,11 @@ def run(ctx, scratch):
         part_levels(ctx, impl, rng, quick)
         part_kcinit(ctx, impl, rng, quick)
         part_fit(ctx, impl, rng, quick)
+    summary = {}
+    for v in ctx.violations + [h[1] for h in ctx.known_hits]:
+        key = '%s/%s' % (v.get('site'), v.get('check'))
+        summary[key] = summary.get(key, 0) + 1
+    ctx.extra['violation_summary'] = summary
     ctx.rule = ('standalone reindex_labels / np.unique(return_inverse) / get_membership on label vectors with size ties, gaps and '
                 'negatives; Louvain._post_processing on prescribed memberships x shuffle index x flags; Louvain/Leiden.fit with the '
                 'optimiser replaced by prescribed per-level answers; KCenters._init_centers with recorded draws; Louvain, Leiden, '
